@@ -424,6 +424,7 @@ type Contract struct {
 	Canaries  []*Clause // must-fail postconditions
 	Modifies  []string  // textual locations
 	ModAll    bool
+	FloatAbs  bool // integer<->float conversions as uninterpreted functions (glue proofs that only need congruence)
 	ModHeap   bool // every heap cell may change (ghost state only as listed)
 	Loops     map[int]*LoopContract
 	Props     []string // property ids this contract serves (for selection)
